@@ -202,7 +202,7 @@ func merge(job reg.Job, rs []*reg.Result) *reg.Result {
 		for k, v := range r.Notes {
 			switch k {
 			case "db_completed":
-			case "sleep_blocked":
+			case "sleep_blocked", "hb_states", "hb_pruned":
 				a, _ := m.Notes[k].(float64)
 				b, _ := v.(float64)
 				m.Notes[k] = a + b
@@ -245,6 +245,26 @@ func runJobs(meta propMeta, tier string, only string) []*jobResult {
 		job := meta.Jobs[ji]
 		if only != "" && !strings.Contains(job.Label, only) && !strings.Contains(job.Part, only) {
 			continue
+		}
+		if ov := os.Getenv("VERIF_ARGS_OVERRIDE"); ov != "" {
+			// experiments only (used with --only; no evidence is written then): k=v,k=v merged into the job's arguments
+			na := map[string]string{}
+			for k, v := range job.Args {
+				na[k] = v
+			}
+			for _, kv := range strings.Split(ov, ",") {
+				if i := strings.Index(kv, "="); i > 0 {
+					switch kv[:i] {
+					case "shards":
+						fmt.Sscan(kv[i+1:], &job.Shards)
+					case "budget":
+						fmt.Sscan(kv[i+1:], &job.BudgetS)
+					default:
+						na[kv[:i]] = kv[i+1:]
+					}
+				}
+			}
+			job.Args = na
 		}
 		if job.Shards < 1 {
 			job.Shards = 1
@@ -601,6 +621,15 @@ func check(id, tier, only string) int {
 			je["warning"] = "one outcome from many executions: the oracle's view did not vary across the explored space"
 		}
 		jobsEv = append(jobsEv, je)
+		if os.Getenv("VERIF_VERBOSE") != "" {
+			var oks []string
+			for k := range m.Outcomes {
+				oks = append(oks, k)
+			}
+			sort.Strings(oks)
+			fmt.Printf("JOBSET %q outcomes=%d sethash=%x\n", jr.Job.Label, len(oks), sha1.Sum([]byte(strings.Join(oks, "\x00"))))
+			fmt.Printf("JOB %q: evals=%d states=%d trans=%d outcomes=%d exhaustive=%v bound=%q wall=%.1fs notes=%v\n", jr.Job.Label, m.Evaluations, m.States, m.Transitions, len(m.Outcomes), m.Exhaustive, m.Bound, m.WallS, m.Notes)
+		}
 		for _, v := range m.Violations {
 			isKnown := false
 			for _, k := range kn.Findings {
